@@ -11,7 +11,8 @@
    recursion walking the vectors in step) and for
    cmp_structural (Iterator::cmp of the (var, low, high) triples = lexicographic order, a proper prefix is Less).
    cmp_cardinality(_strict) are parametrised by the count function (`exact_cardinality` is modelled elsewhere); the
-   instance used by the correspondence driver is the brute-force count `card_bf`.
+   correspondence driver instantiates them with `Count.exact_cardinality` (through the memoised, proved-equal
+   `CountFast.exact_cardinality_auto`); `card_bf` below is a brute-force count kept for small cross-checks.
    Definitions only. *)
 From Coq Require Import List NArith Bool.
 Import ListNotations.
